@@ -1707,3 +1707,108 @@ Example ex14_seq_state :
   owner m ex14_seq_key = Some 0%Z /\ kv_get m (shadow_key 0 ex14_seq_key) <> None /\ kv_get m (shadow_key 0 [115%N]) = None /\
   uv m' ex14_seq_key = None /\ uv m' [115%N] <> None.
 Proof. vm_compute. repeat split; discriminate. Qed.
+
+(* ================================================================ Part 5: the sessions of a new leader = the sessions of its log *)
+(* BecomeLeader applies the WHOLE log (applyAllEntriesIntoDB) and only then calls Initialize: the DB that [leader_init]
+   reads is the fold of every entry, whatever prefix of it the node had applied as a follower. *)
+Definition apply_log (cfg : config) (st : state) (log : list (write_req * Z * N)) : state :=
+  fold_left (fun s e => fst (process_write wrapper_callbacks cfg s (fst (fst e)) (snd (fst e)) (snd e))) log st.
+
+Lemma apply_log_wf cfg log : forall st, wf_kv (st_kv st) -> wf_kv (st_kv (apply_log cfg st log)).
+Proof.
+  unfold apply_log. induction log as [|e tl IH]; simpl; intros st W; [exact W|]. apply IH. apply wf_preserved. exact W.
+Qed.
+
+Lemma apply_log_app cfg st l1 l2 : apply_log cfg st (l1 ++ l2) = apply_log cfg (apply_log cfg st l1) l2.
+Proof. unfold apply_log. apply fold_left_app. Qed.
+
+Section LeaderInitSound.
+  Variable meta_dec : bytes -> option N.
+
+  Definition found_in (st : state) (K : list key) (z : Z) (t : N) : Prop :=
+    exists y e, In y K /\ key_to_id y = Some z /\ kv_get (st_kv st) y = Some (VRecord e) /\ meta_dec (e_value e) = Some t.
+
+  Lemma read_sessions_sound st K : forall keys acc l0,
+    (forall y, In y keys -> In y K) ->
+    read_sessions meta_dec st keys acc = Ok l0 ->
+    (forall z t, In (z, t) acc -> found_in st K z t) ->
+    forall z t, In (z, t) l0 -> found_in st K z t.
+  Proof.
+    induction keys as [|y tl IH]; intros acc l0 Hsub H Hacc z t Hin.
+    - inversion H; subst. apply Hacc. exact Hin.
+    - cbn [read_sessions] in H.
+      assert (Hsub' : forall y0, In y0 tl -> In y0 K) by (intros y0 H0; apply Hsub; right; exact H0).
+      destruct (db_get st y CEqual true) as [g|e0] eqn:G; [|discriminate].
+      destruct (g_status g) eqn:Gs; try (exact (IH acc l0 Hsub' H Hacc z t Hin)).
+      destruct (g_value g) as [v|] eqn:Gv; [|exact (IH acc l0 Hsub' H Hacc z t Hin)].
+      destruct (key_to_id y) as [id|] eqn:Ky; [|exact (IH acc l0 Hsub' H Hacc z t Hin)].
+      destruct (meta_dec v) as [t'|] eqn:Md; [|exact (IH acc l0 Hsub' H Hacc z t Hin)].
+      refine (IH _ l0 Hsub' H _ z t Hin). intros z0 t0 [E|Hf].
+      + inversion E; subst z0 t0. unfold db_get, kv_lookup in G.
+        destruct (kv_get (st_kv st) y) as [v0|] eqn:Kv; [|inversion G; subst g; discriminate].
+        destruct v0 as [e|nb]; simpl in G; [|discriminate].
+        assert (Ev : v = e_value e).
+        { inversion G as [Eg]. rewrite <- Eg in Gv. simpl in Gv. inversion Gv. reflexivity. }
+        rewrite Ev in Md.
+        exists y, e. split; [apply Hsub; left; reflexivity|]. split; [exact Ky|]. split; [exact Kv|exact Md].
+      + apply filter_In in Hf. apply Hacc. apply Hf.
+  Qed.
+
+  Theorem leader_init_sound st now l z ss :
+    leader_init meta_dec st now = Ok l -> In (z, ss) l ->
+    ss_armed ss = now /\ found_in st (db_list st session_lo session_hi) z (ss_timeout ss).
+  Proof.
+    intros H Hin. split; [eapply leader_init_armed; eassumption|]. unfold leader_init in H.
+    destruct (read_sessions meta_dec st (db_list st session_lo session_hi) []) as [l0|e0] eqn:R; [|discriminate].
+    inversion H; subst l; clear H. apply in_map_iff in Hin. destruct Hin as [[z0 t0] [E Hin]]. inversion E; subst z ss.
+    cbn [ss_timeout]. eapply read_sessions_sound; [|exact R| |exact Hin].
+    - intros y Hy. exact Hy.
+    - intros z1 t1 [].
+  Qed.
+End LeaderInitSound.
+
+(* After a leader change on a node whose log is [log] (any of it applied or not before the election), the sessions of
+   the new leader's session manager are read from the DB reached by the whole log:
+   every session it has comes from a stored session key with decodable metadata and is armed with a full timeout at the
+   time of the change; every session key of that DB with decodable metadata (and no other listed key denoting the same
+   id) is among them; and the change itself alters no session key. *)
+Theorem sessions_after_leader_change meta_enc meta_dec cfg mn mx log closing sessions term ts now :
+  let db0 := apply_log cfg init_state log in
+  let w := mkWorld db0 sessions closing in
+  let w' := fst (step meta_enc meta_dec cfg mn mx w (ALeaderChange term ts now)) in
+  snd (step meta_enc meta_dec cfg mn mx w (ALeaderChange term ts now)) = ODone ->
+  (forall z, alive (st_kv (sw_db w')) z = alive (st_kv db0) z) /\
+  (forall z ss, In (z, ss) (sw_sessions w') ->
+     ss_armed ss = now /\ found_in meta_dec (sw_db w') (db_list (sw_db w') session_lo session_hi) z (ss_timeout ss)) /\
+  (forall z e t, (0 <= z < 9223372036854775808)%Z ->
+     kv_get (st_kv db0) (session_key z) = Some (VRecord e) -> meta_dec (e_value e) = Some t ->
+     (forall y, In y (db_list (sw_db w') session_lo session_hi) -> key_to_id y = Some z -> y = session_key z) ->
+     In (z, mkSess t now) (sw_sessions w')).
+Proof.
+  intros db0 w w' Ho. unfold w', w in *. cbn [step sw_db] in *.
+  set (db' := update_term db0 term (st_notif db0) ts) in *.
+  assert (Wf0 : wf_kv (st_kv db0)) by (apply apply_log_wf; apply wf_nil).
+  assert (Sk : forall z, kv_get (st_kv db') (session_key z) = kv_get (st_kv db0) (session_key z)).
+  { intro z. unfold db', update_term, internal_put. cbn [st_kv].
+    rewrite kv_get_put_other by apply session_key_not_term_options.
+    apply kv_get_put_other. apply session_key_not_term. }
+  assert (Wf' : wf_kv (st_kv db')).
+  { unfold db', update_term. cbn [st_kv]. apply wf_internal_put, wf_internal_put. exact Wf0. }
+  destruct (leader_init meta_dec db' now) as [l|e0] eqn:L; cbn [fst snd sw_db sw_sessions] in *; [|discriminate].
+  split; [|split].
+  - intro z. unfold alive. rewrite Sk. reflexivity.
+  - intros z ss Hin. eapply leader_init_sound; eassumption.
+  - intros z e t Hz Hk Hm Hu. rewrite <- Sk in Hk.
+    exact (leader_init_finds_session meta_dec db' now z e t l (proj1 Wf') Hz Hk Hm Hu L).
+Qed.
+
+(* The order matters (what a seeded change of BecomeLeader got wrong): Initialize on the DB of a log PREFIX misses the
+   session that the unapplied tail creates, although the DB the leader ends up with has it. *)
+Example initialize_before_tail_loses_session :
+  let dec := fun b : bytes => match b with [t] => Some t | _ => None end in
+  let tail := [(create_request 0 [200%N], 0%Z, 10%N); (rf_put rf_ka (Some 0%Z), 1%Z, 11%N)] in
+  leader_init dec (apply_log rf_cfg init_state []) 5000 = Ok [] /\
+  alive (st_kv (apply_log rf_cfg init_state tail)) 0 = true /\
+  owner (st_kv (apply_log rf_cfg init_state tail)) rf_ka = Some 0%Z /\
+  leader_init dec (apply_log rf_cfg init_state tail) 5000 = Ok [(0%Z, mkSess 200 5000)].
+Proof. vm_compute. repeat split. Qed.
